@@ -369,13 +369,24 @@ class MDCPDPEnv(RL4COEnvBase):
         # Append the last depot to the end of the actions
         actions = torch.cat([actions, td["current_depot"]], dim=-1)
 
+        # The tour that is open when the episode ends still has to return to its depot
+        current_length = td["current_length"]
+        if self.problem_mode == "close":
+            last_leg = self.get_distance(
+                gather_by_index(td["locs"], td["current_node"]),
+                gather_by_index(td["locs"], td["current_depot"]),
+            )
+            current_length = current_length.scatter_add(
+                -1, td["current_depot"], last_leg.unsqueeze(-1)
+            )
+
         # Calculate the reward
         if self.reward_mode == "minmax":
-            cost = torch.max(td["current_length"], dim=-1)[0]
+            cost = torch.max(current_length, dim=-1)[0]
         elif self.reward_mode == "minsum":
-            cost = torch.sum(td["current_length"], dim=-1)
+            cost = torch.sum(current_length, dim=-1)
         elif self.reward_mode == "lateness":
-            cost = torch.sum(td["current_length"], dim=(-1))
+            cost = torch.sum(current_length, dim=(-1))
             lateness = td["arrivetime_record"][..., num_depot + num_loc // 2 :]
             if self.reward_mode == "lateness_square":
                 lateness = lateness**2
